@@ -4,6 +4,7 @@ import re
 from .. import engine
 from ..facts import call_matches, op_place, rvalue_places
 from ..util import calls, data_deps
+from .. import arith
 
 NOT_DECIDED = ("byte-exactness of the transferred data for all chunkings, offsets and capacities (the core of C11 is an "
                "input-space quantity); only the loop skeleton of every helper is decided: progress is counted, the buffer is "
@@ -140,5 +141,50 @@ def rules(ctx, db):
                "an Interrupted error goes round the loop again instead of being returned", f)
 
 
+SCOPE = ("compio_io::read::", "compio_io::write::", "compio_io::util::", "compio_io::buffer::")
+
+
+def rule_arith(ctx, db):
+    """R3: no in-memory reader / writer / cursor / Take / Buffer operation can panic on a position, length or limit:
+    every checked subtraction `a - b` and every open-ended slice index `x[b..]` / `x[..b]` is preceded by one of
+    the repository's idioms that establish b <= a (see vflib/arith.py)."""
+    R = ctx.rule
+    R("R3", "GUARD/arith", "in the in-memory readers, writers and cursors, Take and Buffer every checked subtraction and every "
+      "open-ended slice index is justified: a dominating comparison, a min() clamp, the length of a re-slice, or the count "
+      "of a copy helper bounded by the source length (positions beyond the end and odd capacities cannot panic)")
+    if not any(f.id.startswith("compio_io::") for f in db.fns.values()):
+        return
+    n = 0
+    per_fn = {}
+    for f in db.fns.values():
+        if not f.id.startswith(SCOPE):
+            continue
+        sg = None
+        for st in arith.sites(f):
+            if sg is None:
+                sg = arith.Sigs(f)
+            if st[0] == "sub":
+                _, bb, a, b, ln = st
+                j = arith.justify(db, f, sg, a, b, bb)
+                what = "subtraction"
+            else:
+                _, bb, tgt, bound, kind, ln = st
+                j = arith.justify(db, f, sg, None, bound, bb, a_is_len_of=sg.operand(tgt))
+                what = "index-" + kind
+            k = (db.root_fn(f).name, what)
+            per_fn[k] = per_fn.get(k, 0) + 1
+            n += 1
+            ctx.ob("R3", "justified:%s:%s#%d" % (db.root_fn(f).name, what, per_fn[k]), j is not None,
+                   "%s at line %s: %s" % (what, ln, j or "no comparison / min() / re-slice / bounded count establishes that the "
+                                          "subtrahend (or index bound) cannot exceed the minuend (or the slice length): "
+                                          "some position, length or capacity makes this panic"), f)
+    ctx.floor("R3", "checked subtractions / open-ended indexes in scope", n, 25)
+
+
+def rules_all(ctx, db):
+    rules(ctx, db)
+    rule_arith(ctx, db)
+
+
 def check(tier):
-    return engine.run("C11", tier, rules, NOT_DECIDED, [])
+    return engine.run("C11", tier, rules_all, NOT_DECIDED, [])
